@@ -9,6 +9,7 @@ import (
 
 	"github.com/refraction-networking/uquic/internal/ackhandler"
 	"github.com/refraction-networking/uquic/internal/handshake"
+	"github.com/refraction-networking/uquic/internal/monotime"
 	"github.com/refraction-networking/uquic/internal/protocol"
 	"github.com/refraction-networking/uquic/internal/qerr"
 	"github.com/refraction-networking/uquic/internal/utils"
@@ -134,4 +135,62 @@ func (v *VerifC14Conn) ClosedRecv(n int) (queued int) {
 			return queued
 		}
 	}
+}
+
+// ---- coalesced datagrams (Conn.handleOnePacket credits a datagram's size exactly once) ----
+
+// VerifC14Part describes one coalesced part: Type 0 Initial, 1 0-RTT, 2 Handshake (a parseable
+// long header with a payload that cannot decrypt), -1 garbage without the long-header bit.
+type VerifC14Part struct {
+	Type int
+	Size int
+}
+
+// VerifC14CoalescedDatagram lays out QUIC v1 long-header packets with the given destination
+// connection ID back to back; payload bytes come from fill. A part too small for a header
+// becomes garbage.
+func VerifC14CoalescedDatagram(dcid []byte, parts []VerifC14Part, fill func(n int) []byte) []byte {
+	var out []byte
+	scid := []byte{0xc1, 0x4c, 0x14, 0x01}
+	for _, pt := range parts {
+		hdrLen := 1 + 4 + 1 + len(dcid) + 1 + len(scid) + 2
+		if pt.Type == 0 {
+			hdrLen++ // token length
+		}
+		if pt.Type < 0 || pt.Size < hdrLen+1 || pt.Size-hdrLen >= 1<<14 {
+			g := fill(pt.Size)
+			if len(g) > 0 {
+				g[0] &= 0x3f // neither long header nor a valid fixed bit pattern we care about
+			}
+			out = append(out, g...)
+			continue
+		}
+		b := []byte{0xc0 | byte(pt.Type)<<4 | 0x03, 0, 0, 0, 1, byte(len(dcid))}
+		b = append(b, dcid...)
+		b = append(b, byte(len(scid)))
+		b = append(b, scid...)
+		if pt.Type == 0 {
+			b = append(b, 0)
+		}
+		l := pt.Size - hdrLen
+		b = append(b, 0x40|byte(l>>8), byte(l))
+		b = append(b, fill(l)...)
+		out = append(out, b...)
+	}
+	return out
+}
+
+// DCID is the connection ID the client's first Initial was addressed to.
+func (v *VerifC14Conn) DCID() []byte { return []byte{1, 2, 3, 4, 5, 6, 7, 8} }
+
+// StatsBytesReceived is ConnectionStats.BytesReceived.
+func (v *VerifC14Conn) StatsBytesReceived() uint64 { return v.conn.connStats.BytesReceived.Load() }
+
+// HandleDatagram passes one UDP datagram through the real Conn.handleOnePacket (what the run
+// loop does for every received datagram) and returns ConnectionStats.BytesReceived afterwards.
+func (v *VerifC14Conn) HandleDatagram(data []byte, rcvTime int64) (statsBytesReceived uint64, err error) {
+	buf := getPacketBuffer()
+	buf.Data = append(buf.Data[:0], data...)
+	_, err = v.conn.handleOnePacket(receivedPacket{buffer: buf, remoteAddr: v.sc.RemoteAddr(), rcvTime: monotime.Time(rcvTime), data: buf.Data}, 0)
+	return v.conn.connStats.BytesReceived.Load(), err
 }
